@@ -32,7 +32,12 @@ func (bucket *Bucket) StartDCPFeed(
 	traceEnter("StartDCPFeed", "bucket=%s, args=%+v", bucket.GetName(), args)
 	// If no scopes are specified, return feed for the default collection, if it exists
 	if len(args.Scopes) == 0 {
-		return bucket.DefaultDataStore().(*Collection).StartDCPFeed(ctx, args, callback, dbStats)
+		// (not DefaultDataStore(): it returns nil, for instance when the bucket has been closed)
+		collection, err := bucket.getOrCreateCollection(defaultDataStoreName, true)
+		if err != nil {
+			return err
+		}
+		return collection.StartDCPFeed(ctx, args, callback, dbStats)
 	}
 
 	// Validate requested collections exist before starting feeds
